@@ -17,7 +17,7 @@
 (* Reasons starting with "EXPECTATION" are as-built choices or coverage expectations     *)
 (* (exit 2, "model out of date"), "INSTANTIATION" means the driver did not build what the  *)
 (* case describes (infrastructure); everything else contradicts a documented rule.        *)
-EXTENDS JWKSetCases, Json
+EXTENDS JWKSetCases, Json, CSV
 
 Trace == ndJsonDeserialize(IOEnv.VERIF_TRACE)
 
@@ -92,6 +92,7 @@ ExportInstantiation(e) ==
              /\ c.kid = (IF a.kind = "jwt" /\ a.strat = "CUSTOM" THEN BytesToHex(KidBytes(a.kidc)) ELSE "")
              /\ (a.kind = "jwt" /\ a.mat = "lz") => HexToBytes(c.n)[1] = 0
              /\ (a.kind = "jwt" /\ a.mat = "e3") => c.e = "010003"
+             /\ (a.kind = "jwt" /\ a.mat = "z") => HexToBytes(c.x)[1] = 0
   THEN <<>> ELSE <<"INSTANTIATION: the keyset is not the keyset of the case", e.lab>>
 
 SameBag(s, t) == /\ Len(s) = Len(t)
@@ -159,10 +160,25 @@ Judge(e) ==
     [] e.ev = "verify" -> JudgeVerify(e)
     [] OTHER -> <<"unknown event", e.ev>>
 
+\* With VERIF_STATS set, the class the specification puts every call in is appended to <trace file>.stats (one
+\* JSON line per event): the check reports from it which as-built choices the run exercised (observations).
+Stat(e) ==
+  CASE e.ev = "import" -> LET r == JwkImport(e.shape, JLift(e.tree)) IN
+                          [ev |-> "import", src |-> e.src, blk |-> e.blk, verdict |-> r.verdict, err |-> e.err,
+                           doc |-> SetToSeq(r.doc), gf |-> SetToSeq(r.gf), gp |-> SetToSeq(r.gp)]
+    [] e.ev = "export" -> LET ks == KeysetOfEvent(e) IN
+                          [ev |-> "export", src |-> "plan", blk |-> e.blk, err |-> e.err,
+                           verdict |-> IF JwkExportRefused(ks) THEN "refused" ELSE IF JwkExportGrey(ks) THEN "exported*" ELSE "exported",
+                           doc |-> <<>>, gf |-> <<>>, gp |-> <<>>]
+    [] OTHER -> [ev |-> e.ev, src |-> "plan", blk |-> e.blk, err |-> ~e.ok, verdict |-> IF e.ok THEN "verified" ELSE "not verified",
+                 doc |-> <<>>, gf |-> <<>>, gp |-> <<>>]
+Stats == "VERIF_STATS" \in DOMAIN IOEnv
+
 Start == IF "VERIF_START" \in DOMAIN IOEnv THEN atoi(IOEnv.VERIF_START) ELSE 1
 Init == l = Start /\ bad = <<>>
 Next == /\ l <= Len(Trace)
         /\ bad' = Judge(Trace[l])
+        /\ Stats => CSVWrite("%1$s", <<ToJson(Stat(Trace[l]))>>, IOEnv.VERIF_TRACE \o ".stats")
         /\ l' = l + 1
 Spec == Init /\ [][Next]_vars
 
